@@ -906,3 +906,75 @@ func HarnessC02SeqF64() {
 		}
 	}
 }
+
+// C08.destreuse: what an aggregator reports depends on what it measured, not
+// on what the destination held before: two cumulative aggregators of one kind
+// (sum, explicit histogram, last value) collected into two shared destination
+// slots in any order (the SDK reuses the slots of a ResourceMetrics)
+func HarnessC08DestReuse() {
+	aggClock()
+	kind := vndChoice(3)
+	var m [2]Measure[int64]
+	var c [2]ComputeAggregation
+	for i := 0; i < 2; i++ {
+		b := Builder[int64]{Temporality: metricdata.CumulativeTemporality}
+		switch kind {
+		case 0:
+			m[i], c[i] = b.Sum(false)
+		case 1:
+			m[i], c[i] = b.ExplicitBucketHistogram([]float64{0, 10}, false, false)
+		case 2:
+			m[i], c[i] = b.LastValue()
+		}
+	}
+	ctx := context.Background()
+	var slots [2]metricdata.Aggregation
+	var total [2]int64
+	var count [2]uint64
+	var last [2]int64
+	var buckets [2][3]uint64
+	k := vndParam("K", 5)
+	for step := 0; step < k; step++ {
+		a := vndChoice(2)
+		if vndChoice(2) == 0 {
+			v := int64(vndInt(-20, 20))
+			m[a](ctx, v, aggSets[0])
+			total[a] += v
+			count[a]++
+			last[a] = v
+			switch {
+			case v <= 0:
+				buckets[a][0]++
+			case v <= 10:
+				buckets[a][1]++
+			default:
+				buckets[a][2]++
+			}
+			continue
+		}
+		s := vndChoice(2)
+		n := c[a](&slots[s])
+		vndReach("collect")
+		if count[a] == 0 {
+			vndAssert(n == 0, "nothing-measured-nothing-reported")
+			continue
+		}
+		vndAssert(n == 1, "one-point-for-the-one-set")
+		switch d := slots[s].(type) {
+		case metricdata.Sum[int64]:
+			vndAssert(kind == 0 && len(d.DataPoints) == 1 && d.DataPoints[0].Value == total[a], "cumulative-sum-equals-own-running-total")
+		case metricdata.Histogram[int64]:
+			ok := kind == 1 && len(d.DataPoints) == 1
+			vndAssert(ok, "histogram-reported")
+			if ok {
+				p := d.DataPoints[0]
+				vndAssert(p.Count == count[a] && p.Sum == total[a], "cumulative-histogram-count-and-sum-equal-own-running-total")
+				vndAssert(len(p.BucketCounts) == 3 && p.BucketCounts[0] == buckets[a][0] && p.BucketCounts[1] == buckets[a][1] && p.BucketCounts[2] == buckets[a][2], "cumulative-histogram-buckets-equal-own-running-total")
+			}
+		case metricdata.Gauge[int64]:
+			vndAssert(kind == 2 && len(d.DataPoints) == 1 && d.DataPoints[0].Value == last[a], "gauge-reports-own-last-value")
+		default:
+			vndAssert(false, "aggregation-of-the-expected-kind")
+		}
+	}
+}
